@@ -134,6 +134,7 @@ Definition vs_step (s : vspec) (op : vop) : vspec * rout :=
   | VPut now m_id tok topics => let '(s', r) := vs_put s now m_id tok topics in (s', OPut r)
   | VReplay now id topics script => (s, OReplay (vs_replay s now id topics script))
   | VGC now => (vs_gc s now, OGC)
+  | VSetGCI _ g => (mkvs (vs_l s) (vs_next s) (vs_lastgc s) g (vs_ttl s), OGC)
   end.
 
 Fixpoint vs_run (s : vspec) (ops : list vop) : list rout :=
